@@ -3,25 +3,25 @@ thorough sweep (/var/tmp/thor/summary.txt, if present); the last column is kept 
 import json, os, re
 ROOT = os.path.dirname(os.path.dirname(os.path.abspath(__file__)))
 ADD = {
- "C01": "second/millisecond timedeltas, negative-step range indexes, categoricals without categories and with boolean labels, offset lists that do not name row 0",
- "C02": "files of datasets with a history (two appends through one handle, removal with renumbering)",
+ "C01": "second/millisecond timedeltas, negative-step range indexes, categoricals without categories and with boolean labels, offset lists that do not name row 0, categorical row indexes (with missing entries), columns named *-catdef, codec specs without type",
+ "C02": "files of datasets with a history (two appends through one handle, removal with renumbering); isAdjustedToUTC of every timestamp column against what is stored",
  "C03": "pandas metadata asking for a finer time resolution (PM/), empty dictionary pages (E/), a fastparquet append to another writer's file (AP/), BYTE_ARRAY decimals, statistics without null_count",
  "C04": "statistics after an append through the handle and of sliced handles, fixed_text columns, orderable JSON lists",
- "C05": "partition columns whose name ends in a data column's name",
+ "C05": "partition columns whose name ends in a data column's name, statistics in min_value/max_value only, value collections as tuple / set / frozenset / array, NaN among listed values",
  "C06": "one selection list object reused by all reads of a case, partition columns as the chosen index",
- "C07": "appends through a kept handle, which must then read what a fresh open reads",
+ "C07": "appends through a kept handle, which must then read what a fresh open reads; coarser time units in appended batches; multi-indexed datasets stored in slices of one frame (MI/)",
  "C08": "datasets with two-digit part numbers appended to (MA/), text keys that look percent-escaped",
- "C09": "timestamp / float / boolean keys and key columns of different numeric dtypes under overwrite",
+ "C09": "timestamp / float / boolean keys and key columns of different numeric dtypes under overwrite; removals of row groups picked on another handle; datasets in another fsspec file system (FS/)",
  "C10": "merge given handles, unverified merge of >= 3 files decoded through _metadata, footers with repeated keys and a key without value",
  "C11": "two length-prefixed streams on one output",
- "C13": "one handle across write_row_groups / remove_row_groups with the same filters (KH/)",
- "C14": "piece handles re-used after open/merge, type-parameter mismatches (tz, width), sets of files of two writers (MW/)",
- "C15": "dictionary fallback inside nested chunks (NF/), two-file datasets with shifted chunk positions (NX/)",
+ "C13": "one handle across write_row_groups / remove_row_groups with the same filters (KH/), constants finer than the column's time unit (TU/), value collections other than lists",
+ "C14": "piece handles re-used after open/merge, type-parameter mismatches (tz, width), sets of files of two writers (MW/), directories named with a common prefix, hive sub-datasets by path / handle / merge (SD/), relative paths (RP/)",
+ "C15": "dictionary fallback inside nested chunks (NF/), two-file datasets with shifted chunk positions (NX/), other writers' group names (NL/), null counts on nested chunks, columns named key / value",
  "C16": "updates naming unchanged keys, updates on derived handles, the caller's dict after write",
- "C17": "reads with a dtypes mapping, handles that edited their dataset (new categories, first nulls, no pandas metadata), nested columns before flat ones (XN/), predictions that cannot hold the column's missing values",
- "C18": "datasets with removed row groups (GP/), appends from iterables that fail (IT/)",
+ "C17": "reads with a dtypes mapping, handles that edited their dataset (new categories, first nulls, no pandas metadata), nested columns before flat ones (XN/), predictions that cannot hold the column's missing values, foreign partly-dictionary categoricals (FC/), handles opened with dtypes=, file sets with columns in another order (CO/)",
+ "C18": "datasets with removed row groups (GP/), appends from iterables that fail (IT/), int32 object overflow (I32/), refused removals (RM/), sort_key that raises (SK/), bare directories without _metadata (NM/)",
  "C19": "appends through a kept handle, followed by a fault-free append on it",
- "C20": "statistics property and sliced statistics as operations, copy as an operation, handles on one shared file object (FO/)",
+ "C20": "statistics property and sliced statistics as operations, copy as an operation, handles on one shared file object (FO/), nested files (NS/), part writers with differing category counts against a per-part reference",
 }
 thor = {}
 p = "/var/tmp/thor/summary.txt"
